@@ -67,7 +67,7 @@ StObj(pn, val) ==
 InitVal(p) == IF Pts[p].ty = "os" THEN "os" \o ToString(Pts[p].ssz) \o ":0" ELSE "0"
 
 NoResp == [has |-> FALSE, uns |-> FALSE, seq |-> 0, fir |-> TRUE, fin |-> TRUE, con |-> FALSE,
-           iin |-> NoIin, body |-> <<>>]
+           iin |-> NoIin, body |-> <<>>, bcg |-> 0]   \* bcg: generation of the broadcast it reported (ghost)
 NoLast == [has |-> FALSE, seq |-> 0, hash |-> 0, resp |-> NoResp]
 NoDef  == [has |-> FALSE, seq |-> 0, hash |-> 0, hs |-> <<>>]
 NoSel  == [has |-> FALSE, seq |-> 0, fid |-> 0, t |-> 0, hash |-> 0]
@@ -88,9 +88,11 @@ Init0 ==
      unsolSeq  |-> 0,
      deferred  |-> NoDef,
      lastBc    |-> "none",
+     bcGen     |-> 0,           \* number of broadcasts latched so far (ghost: which one a fragment reported)
      \* the confirm wait we are blocked in
      series    |-> [ecsn |-> 0, fin |-> TRUE],
      cont      |-> "After1",    \* where run_idle_state resumes after a solicited wait
+     awaitBc   |-> 0,           \* generation of the broadcast the awaited solicited fragment reported (0 none)
      deadline  |-> NoTime,
      uresp     |-> NoResp,      \* unsolicited response being (re)sent
      isNull    |-> FALSE,
@@ -305,7 +307,8 @@ Wire(r, buf) == IF r.body = <<>> THEN r ELSE [r EXCEPT !.body = buf]
 WriteSolicited(s, r0, fresh) ==
     IF Underflow(s) THEN [st |-> Panic(s), resp |-> r0]
     ELSE LET r1 == [r0 EXCEPT !.iin = OrIin(@, ResponseIin(s)),
-                              !.con = @ \/ s.lastBc = "man"]
+                              !.con = @ \/ s.lastBc = "man",
+                              !.bcg = IF s.lastBc # "none" THEN s.bcGen ELSE @]
              s1 == AfterIin(s)
              s2 == IF fresh /\ r1.body # <<>> THEN [s1 EXCEPT !.solBuf = r1.body] ELSE s1
          IN [st |-> Emit(s2, Wire(r1, s2.solBuf)), resp |-> r1]
@@ -315,19 +318,20 @@ RepeatSolicited(s, r) == Emit(s, Wire(r, s.solBuf))
 
 WriteUnsolicited(s, r0) ==
     IF Underflow(s) THEN [st |-> Panic(s), resp |-> r0]
-    ELSE LET r1 == [r0 EXCEPT !.iin = OrIin(@, ResponseIin(s))]
+    ELSE LET r1 == [r0 EXCEPT !.iin = OrIin(@, ResponseIin(s)),
+                              !.bcg = IF s.lastBc # "none" THEN s.bcGen ELSE @]
              s1 == AfterIin(s)
          IN [st |-> Emit(s1, r1), resp |-> r1]
 
 EmptyResp(seq, iin) == [has |-> TRUE, uns |-> FALSE, seq |-> seq, fir |-> TRUE, fin |-> TRUE,
-                        con |-> FALSE, iin |-> iin, body |-> <<>>]
+                        con |-> FALSE, iin |-> iin, body |-> <<>>, bcg |-> 0]
 
 \* format_read_response
 FormatRead(s, fir, seq) ==
     LET w == DbWriteResponse(s)
         needConfirm == w.hasEvents \/ ~w.complete
         r == [has |-> TRUE, uns |-> FALSE, seq |-> seq, fir |-> fir, fin |-> w.complete,
-              con |-> needConfirm, iin |-> NoIin, body |-> w.objs]
+              con |-> needConfirm, iin |-> NoIin, body |-> w.objs, bcg |-> 0]
     IN [st |-> w.st, resp |-> r,
         series |-> IF needConfirm THEN [has |-> TRUE, ecsn |-> seq, fin |-> w.complete]
                    ELSE [has |-> FALSE, ecsn |-> seq, fin |-> TRUE]]
@@ -336,8 +340,23 @@ FormatRead(s, fir, seq) ==
 (* requests (abstract fragments): [f, seq, hash, hs, cl]                      *)
 (*   f: read | delay | enable | disable | confirm | uconfirm                  *)
 
+\* the awaited solicited fragment is the one written last: it reported the pending broadcast iff the
+\* latch was set when it was written (for a mandatory broadcast the latch survives the report)
+LastSolBc(s) == LET xs == SelectSeq(s.otx, LAMBDA x : ~x.uns)
+                IN IF xs # <<>> /\ xs[Len(xs)].iin.bc THEN s.bcGen ELSE 0
+\* DEV_ConfirmClearsUnreportedBroadcast: the code forgets a pending broadcast indication on every
+\* accepted confirm, also when the confirmed fragment had been sent before the broadcast arrived
+\* and therefore never reported it
+ConfirmClearsBc(s, gen) ==
+    LET reported == gen = s.bcGen /\ gen # 0 IN
+    IF reported \/ "ConfirmClearsUnreportedBroadcast" \in DEV
+      THEN [s EXCEPT !.lastBc = "none",
+                     !.devs = IF ~reported /\ s.lastBc # "none" THEN @ \cup {"ConfirmClearsUnreportedBroadcast"} ELSE @]
+      ELSE s
+
 EnterSolWait(s, series, cont) ==
     [s EXCEPT !.pc = "SolWait", !.series = [ecsn |-> series.ecsn, fin |-> series.fin],
+              !.awaitBc = LastSolBc(s),
               !.cont = cont, !.deadline = s.now + ConfirmTO,
               !.ocb = Append(@, MkCb(s.now, "info", "enter_sol_wait", <<series.ecsn>>))]
 
@@ -402,7 +421,7 @@ Reply(h) == IF h.resp.has THEN WriteSolicited(h.st, h.resp, TRUE) ELSE [st |-> h
 \* process_broadcast: latch the confirm mode, run the few functions allowed by broadcast, never reply
 BcMode(dst) == CASE dst = "BC_OPT" -> "opt" [] dst = "BC_MAN" -> "man" [] OTHER -> "nr"
 ProcessBroadcast(s, q) ==
-    LET s1 == [s EXCEPT !.lastBc = BcMode(q.dst)]
+    LET s1 == [s EXCEPT !.lastBc = BcMode(q.dst), !.bcGen = @ + 1]
         done(st, act) == [st EXCEPT !.ocb = Append(@, [MkCb(s.now, "info", "broadcast", <<q.fc>>) EXCEPT !.s = act])]
     IN CASE q.bad = "badobj" -> done(s1, "bad_headers")
          [] q.f \in {"write_rst", "dopnr", "enable", "disable"} ->
@@ -503,7 +522,7 @@ CheckUnsol(s) ==
     ELSE IF s.unsol = "Null" THEN
         LET seq == s.unsolSeq
             r0  == [has |-> TRUE, uns |-> TRUE, seq |-> seq, fir |-> TRUE, fin |-> TRUE,
-                    con |-> TRUE, iin |-> NoIin, body |-> <<>>]
+                    con |-> TRUE, iin |-> NoIin, body |-> <<>>, bcg |-> 0]
             w   == WriteUnsolicited([s EXCEPT !.unsolSeq = S16(@ + 1)], r0)
         IN IF w.st.pc = "Dead" THEN w.st ELSE EnterUnsolWait(w.st, w.resp, TRUE)
     ELSE IF s.notBefore # NoTime /\ s.now < s.notBefore THEN
@@ -519,7 +538,7 @@ CheckUnsol(s) ==
              THEN [(IF none THEN s2 ELSE w.st) EXCEPT !.pc = "After2", !.nextAct = "Event"]
              ELSE LET seq == s.unsolSeq
                       r0 == [has |-> TRUE, uns |-> TRUE, seq |-> seq, fir |-> TRUE, fin |-> TRUE,
-                             con |-> TRUE, iin |-> NoIin, body |-> w.objs]
+                             con |-> TRUE, iin |-> NoIin, body |-> w.objs, bcg |-> 0]
                       wu == WriteUnsolicited([w.st EXCEPT !.unsolSeq = S16(@ + 1),
                                                           !.unsolBuf = w.objs], r0)
                   IN IF wu.st.pc = "Dead" THEN wu.st ELSE EnterUnsolWait(wu.st, wu.resp, FALSE)
@@ -552,12 +571,14 @@ UnsolWaitRx(s) ==
     ELSE
     CASE q.f = "uconfirm" ->
             IF q.seq = s.uresp.seq
-              THEN UnsolDone([s0 EXCEPT !.lastBc = "none",
+              THEN UnsolDone([ConfirmClearsBc(s0, s.uresp.bcg) EXCEPT
                                         !.ocb = Append(@, MkCb(s.now, "info", "unsol_confirmed", <<q.seq>>))],
                              "Confirmed")
               ELSE s0
       [] q.f = "confirm" ->
-            IF s0.lastBc = "man" THEN [s0 EXCEPT !.lastBc = "none"] ELSE s0
+            \* a solicited confirm while no solicited response is awaited confirms nothing; the code
+            \* nevertheless takes it as the confirmation of a confirm-mandatory broadcast
+            IF s0.lastBc = "man" THEN ConfirmClearsBc(s0, 0) ELSE s0
       [] IsBc(q) -> ProcessBroadcast([s0 EXCEPT !.deferred = NoDef], q)
       [] q.bad = "badobj" ->
             WriteSolicited([s0 EXCEPT !.deferred = NoDef],
@@ -601,7 +622,7 @@ SolWaitRx(s) ==
                                !.ocb = Append(@, MkCb(s.now, "info", "sol_wait_new_request", <<>>))]
     ELSE
     CASE q.f = "confirm" /\ q.seq = s.series.ecsn ->
-            LET s0 == [s EXCEPT !.inbox = Tail(@), !.lastBc = "none",
+            LET s0 == [ConfirmClearsBc(s, s.awaitBc) EXCEPT !.inbox = Tail(@),
                                 !.ocb = Append(@, MkCb(s.now, "info", "sol_confirmed", <<q.seq>>))]
                 s1 == DbClearWritten(s0)
             IN IF s.series.fin THEN [s1 EXCEPT !.pc = s.cont]
@@ -614,7 +635,7 @@ SolWaitRx(s) ==
                     IN IF w.st.pc = "Dead" THEN w.st
                        ELSE IF fr.series.has
                          THEN [s2 EXCEPT !.series = [ecsn |-> seq, fin |-> fr.series.fin],
-                                         !.deadline = s.now + ConfirmTO]
+                                         !.deadline = s.now + ConfirmTO, !.awaitBc = w.resp.bcg]
                          ELSE [s2 EXCEPT !.pc = s.cont]
       [] q.f = "confirm" ->
             [s EXCEPT !.inbox = Tail(@),
